@@ -158,3 +158,21 @@ pub fn type_name_lower(t: crate::proto::MetricType) -> String {
         crate::proto::MetricType::HISTOGRAM => "histogram".to_owned(),
     }
 }
+
+/// type-directed entry point used by the regex rewrite of `<expr>.to_string()` in encoder/text.rs
+pub trait NumToken {
+    fn tok(&self) -> String;
+}
+impl NumToken for f64 {
+    fn tok(&self) -> String {
+        f64_token(*self)
+    }
+}
+impl NumToken for i64 {
+    fn tok(&self) -> String {
+        i64_token(*self)
+    }
+}
+pub fn num_token<T: NumToken>(v: T) -> String {
+    v.tok()
+}
